@@ -35,10 +35,10 @@ PROPS = {
                      "CountRange/SliceRange are only called with start <= end (documented precondition)"],
         tags=["groar"],
         units=[
-            U("reads", "./roaring", "^TestVerifC01_Reads$", 2400, 120000),
-            U("ops", "./roaring", "^TestVerifC01_Ops$", 1600, 80000),
-            U("nary", "./roaring", "^TestVerifC01_NaryUnion$", 800, 40000, sq=3),
-            U("flip", "./roaring", "^TestVerifC01_Flip$", 600, 30000, sq=2),
+            U("reads", "./roaring", "^TestVerifC01_Reads$", 2400, 60000),
+            U("ops", "./roaring", "^TestVerifC01_Ops$", 1600, 36000),
+            U("nary", "./roaring", "^TestVerifC01_NaryUnion$", 800, 14000, sq=3),
+            U("flip", "./roaring", "^TestVerifC01_Flip$", 600, 14000, sq=2),
         ],
     ),
 }
